@@ -49,6 +49,16 @@ def gen_deflate(tier, rng):
             scns.append(igz.scenario(len(scns), "deflate", inp, level=level, wrap=wrap, lbuf=[0, 3][k % 2], mem=mem, prefill=k % 3, calls=calls,
                                      tail_ai=tail[0], tail_ao=tail[1], cap=40000, meta={"family": name, "cls": cls}))
             k += 1
+    # (v) first output chunk swept over every small size (so that every header / stored-block header / marker ends up
+    #     staged in the 16-byte temporary buffer at every split), consumed input recycled or unmapped at once
+    for cls, n in [("random", 700), ("random", 3000), ("text", 600)] + ([("random", 60000), ("records", 5000)] if tier == "thorough" else []):
+        inp = igz.corpus(rng, cls, n)
+        for level in range(4):
+            for ao in range(1, 49):
+                for eos in ((k % 2,) if tier == "quick" else (0, 1)):
+                    scns.append(igz.scenario(len(scns), "deflate", inp, level=level, wrap=[1, 0, 3, 2, 4][k % 5], lbuf=[3, 0][k % 2], mem=[1, 2][(k // 2) % 2], prefill=k % 3,
+                                             calls=[[n, ao, 0, eos]], tail_ai=n, tail_ao=1 << 17, cap=2000, meta={"family": "first-output-sweep", "cls": cls}))
+                    k += 1
     return scns
 
 def streams(rng, tier):
